@@ -33,7 +33,10 @@ namespace bloc
 
 Value& MemberCONCATExpression::value(Context& ctx) const
 {
-  Value& val = _exp->value(ctx);
+  Value& val0 = _exp->value(ctx);
+  /* the null constant of a program is no storage: the result is built in a
+   * null of its own */
+  Value& val = (_exp->isConst() && val0.type() == Type::NO_TYPE ? ctx.allocate(Value(val0.type())) : val0);
   Value& a0 = _args[0]->value(ctx);
 
   /* collection */
